@@ -498,6 +498,15 @@ func Census() []Goro {
 		if m == nil {
 			continue
 		}
+		if m[1] == "sync.(*WaitGroup).Go" {
+			// started through wg.Go(f): the owner is f, the outermost frame of the goroutine above Go.func1
+			fr := frameRe.FindAllStringSubmatch(g, -1)
+			if len(fr) == 0 {
+				continue
+			}
+			last := fr[len(fr)-1]
+			m = []string{"", last[1], last[2], last[3]}
+		}
 		if !strings.HasPrefix(m[1], "github.com/libp2p/go-libp2p-kad-dht") {
 			continue
 		}
